@@ -30,9 +30,15 @@ def one(rnd):
             ops.append(['get', k])
             v, hit = mc.get(LeafHash(k), None)
             obs.append([(0 if v is None else v) if hit else None, len(mc._cache)])
-        else:
+        elif r < 0.96:
             ops.append(['clear'])
             mc.clear()
+            obs.append([None, len(mc._cache)])
+        else:
+            # the cache travels to another process and back: empty, same bound
+            import pickle
+            ops.append(['pickle'])
+            mc = pickle.loads(pickle.dumps(mc))
             obs.append([None, len(mc._cache)])
     return {'size': size, 'ops': ops, 'obs': obs}
 
